@@ -4,7 +4,7 @@
 PATCH=$(readlink -f "$1"); shift
 CHECKS=${@:-C01 C02 C03 C04 C05 C06 C07 C08 C09 C10 C11 C12 C13 C14 C15 C16 C17 C18 C19}
 WT=/tmp/neutral-$$
-git -C /repo worktree add --detach $WT HEAD >/dev/null 2>&1 || exit 2
+git -C /repo worktree add --detach $WT ${BASE:-HEAD} >/dev/null 2>&1 || exit 2
 trap "git -C /repo worktree remove --force $WT >/dev/null 2>&1" EXIT
 git -C $WT apply "$PATCH" || { echo "patch does not apply"; exit 2; }
 cd /verif
